@@ -55,6 +55,12 @@ def build_forms(spec, decorate):
     for name, p, f0 in callmc.partial_forms(plain):
         Wp = decorate(p, False)
         out.append((name, Wp, (), p, f0.CALLS))
+    # a partial of a *bound method* that fixes the first declared parameter positionally
+    if plain.npos >= 1:
+        g = meth.compile()
+        cls = callmc.holder_class({'f': g})
+        pm = functools.partial(cls().f, 1)
+        out.append(('partial(boundmethod, 1)', decorate(pm, False), (), pm, g.CALLS))
     return out
 
 
@@ -90,6 +96,8 @@ def call_list(tier, typed=False, spec=None):
     if spec is not None and spec[2]:
         extra = [c for c in callmc.calls(values=(1, 'k', 'z'), maxpos=3, kwnames=('k', 'z'), maxkw=1, kwvalues=(1,))
                  if any(isinstance(x, str) for x in c[0])]
+        # ... and strings that read like the repr of another call's arguments ('1' next to 1, "(1, 1)" next to (1, 1))
+        extra += [(('1',), ()), (('1', 1), ()), ((1, '1'), ()), (("(1, 1)",), ()), (('None',), ()), ((None,), ()), (("'1'",), ())]
     if tier == 'quick':
         return callmc.calls(values=(1, 2), maxpos=3, kwnames=('a', 'b', 'k', 'z'), maxkw=2) + extra
     return extra + callmc.calls(values=(1, 2), maxpos=4, kwnames=('a', 'b', 'c', 'k', 'm', 'z'), maxkw=2) + \
@@ -118,7 +126,7 @@ def _w_c0910(task):
         for form, W, prefix, ref, counter in forms:
             groups = collections.OrderedDict()     # binding -> list of (call, key)
             for (a, kw) in calls:
-                if ambiguous_by_design and any(isinstance(x, str) for x in a):
+                if ambiguous_by_design and any(isinstance(x, str) or x is None for x in a):
                     continue
                 args = prefix + a
                 b = callmc.bind_by_call(ref, a if form in ('boundmethod',) or form.startswith('partial') else args, kw)
